@@ -10,6 +10,7 @@ import (
 	"io"
 	"net"
 	"sort"
+	"time"
 
 	"github.com/vapourismo/knx-go/knx"
 	"github.com/vapourismo/knx-go/knx/knxnet"
@@ -167,6 +168,18 @@ func c20Schedule(ep *vnet.Endpoint, evs []Ev, discover bool) {
 				ep.Inject([]byte{6, 0x10, 2}, nil)
 				ep.Inject([]byte{6, 0x10, 2, 8, 0, 4, 1, 0}, nil)       // header announces a total length of 4
 				ep.Inject([]byte{6, 0x10, 2, 4, 0xFF, 0xFF, 0, 0}, nil) // ... of 65535
+				// shaped like the awaited response, but its service-families block announces a length no
+				// such block can have (0, 1, odd, beyond the datagram), alone and followed by padding
+				for _, l := range []byte{0, 1, 3, 255} {
+					for _, pad := range []int{0, 260} {
+						blk := append([]byte{l, 2}, make([]byte, pad)...)
+						if discover {
+							ep.Inject(frame(0x0202, []byte{8, 1, 192, 0, 2, byte(e.IA), 0x0e, 0x57}, devDIB(e.IA), blk), nil)
+						} else {
+							ep.Inject(frame(0x0204, devDIB(e.IA), blk), nil)
+						}
+					}
+				}
 			case "truncated":
 				// every truncation of frames of the other service types,
 				// with the header still announcing the whole frame and with a header that tells the truth
@@ -177,6 +190,7 @@ func c20Schedule(ep *vnet.Endpoint, evs []Ev, discover bool) {
 						t[4], t[5] = byte(cut>>8), byte(cut)
 						ep.Inject(t, nil)
 					}
+					mc.Sleep(100 * time.Microsecond) // (the receiver keeps up: nothing is left to the receive queue's limit)
 				}
 			case "other":
 				ep.Inject(pack(&knxnet.ConnStateRes{Channel: 1}), nil)
